@@ -7,6 +7,7 @@ import (
 	"encoding/json"
 	"flag"
 	"fmt"
+	"strings"
 	"sync"
 	"sync/atomic"
 	"time"
@@ -59,20 +60,26 @@ type tOp struct {
 }
 
 type TSpec struct {
-	Key       string   `json:"key"`
-	LibSeed   uint64   `json:"lib_seed"`
-	ValSeed   uint64   `json:"val_seed"`
-	NCreds    int      `json:"n_creds"`
-	Primed    []bool   `json:"primed"`   // per credential: cache prepared before the tasks start
-	Phases    [][][]tOp `json:"phases"`  // phases separated by barriers; each phase: tasks; each task: ops
-	Barrier   []int    `json:"barrier"`  // per barrier (between phases): 0 nothing, 1 revoke other + update all witnesses, 2 holder restart
-	Schedule  []uint16 `json:"schedule"`
-	Buggify   []string `json:"buggify"`
-	Sequential bool    `json:"sequential"` // run every phase's tasks one after the other (no interleaving)
+	Key        string    `json:"key"`
+	LibSeed    uint64    `json:"lib_seed"`
+	ValSeed    uint64    `json:"val_seed"`
+	NCreds     int       `json:"n_creds"`
+	Primed     []bool    `json:"primed"`  // per credential: cache prepared before the tasks start
+	Phases     [][][]tOp `json:"phases"`  // phases separated by barriers; each phase: tasks; each task: ops
+	Barrier    []int     `json:"barrier"` // per barrier (between phases): 0 nothing, 1 revoke other + update all witnesses, 2 holder restart
+	Schedule   []uint16  `json:"schedule"`
+	Buggify    []string  `json:"buggify"`
+	Sequential bool      `json:"sequential"` // run every phase's tasks one after the other (no interleaving)
 	// FreeRun: the tasks of each phase run as ordinary goroutines with real parallelism and no
 	// scheduler (stress class; not replayable exactly). Interleavings between two adjacent atomic
 	// operations are out of the controlled scheduler's reach; this class reaches them statistically.
 	FreeRun bool `json:"free_run"`
+	// entropy fault: in phase RandFailPhase the crypto/rand reads number RandFailAt .. RandFailAt+RandFailN-1 of
+	// task RandFailTask fail (RandFailN 0: all later ones); RandFailAt 0: no fault
+	RandFailPhase int `json:"rand_fail_phase,omitempty"`
+	RandFailTask  int `json:"rand_fail_task,omitempty"`
+	RandFailAt    int `json:"rand_fail_at,omitempty"`
+	RandFailN     int `json:"rand_fail_n,omitempty"`
 }
 
 func drawTSpec(rt *rapid.T, kinds []int, maxTasks, maxOps, maxPhases int) TSpec {
@@ -107,6 +114,12 @@ func drawTSpec(rt *rapid.T, kinds []int, maxTasks, maxOps, maxPhases int) TSpec 
 			c = rapid.IntRange(1, 63).Draw(rt, "to")
 		}
 		s.Schedule = append(s.Schedule, uint16(c))
+	}
+	if rapid.IntRange(0, 4).Draw(rt, "randfail") == 0 {
+		s.RandFailPhase = rapid.IntRange(0, np-1).Draw(rt, "rfphase")
+		s.RandFailTask = rapid.IntRange(0, maxTasks-1).Draw(rt, "rftask")
+		s.RandFailAt = rapid.IntRange(1, 40).Draw(rt, "rfat")
+		s.RandFailN = rapid.SampledFrom([]int{1, 1, 2, 0}).Draw(rt, "rfn")
 	}
 	for _, b := range []string{"nonrevConsumeBuilder:force-miss"} {
 		if rapid.IntRange(0, 4).Draw(rt, "buggify") == 0 {
@@ -205,6 +218,9 @@ func runT(r *kernel.Run, s TSpec) *tResult {
 			vec = nil
 		}
 		sc := kernel.NewSched(len(tasks), vec, s.LibSeed+uint64(p)*7919, buggify)
+		if s.RandFailAt > 0 && p == s.RandFailPhase && !s.FreeRun {
+			sc.FailTask, sc.FailFrom, sc.FailCount = s.RandFailTask%len(tasks), s.RandFailAt, s.RandFailN
+		}
 		var freeSeq atomic.Int64
 		tick := func() int64 {
 			if s.FreeRun {
@@ -238,12 +254,12 @@ func runT(r *kernel.Run, s TSpec) *tResult {
 							return
 						}
 						seq := 0
-					for _, q := range sl.proofs {
-						if q.Phase == p && q.Task == ti && q.Op == oi {
-							seq++
+						for _, q := range sl.proofs {
+							if q.Phase == p && q.Task == ti && q.Op == oi {
+								seq++
+							}
 						}
-					}
-					sl.proofs = append(sl.proofs, tProof{Phase: p, Task: ti, Op: oi, Seq: seq, Cred: op.Cred % len(res.Creds), Cred2: c2, Kind: kind, Wire: b, Ctx: ctx, Nonce: nonce, IsList: isList, IsIssuance: isIss})
+						sl.proofs = append(sl.proofs, tProof{Phase: p, Task: ti, Op: oi, Seq: seq, Cred: op.Cred % len(res.Creds), Cred2: c2, Kind: kind, Wire: b, Ctx: ctx, Nonce: nonce, IsList: isList, IsIssuance: isIss})
 					}
 					switch op.Kind {
 					case tPrepare:
@@ -390,11 +406,21 @@ func runT(r *kernel.Run, s TSpec) *tResult {
 			cryptorand.Reader = prevReader
 		}
 
-		for _, sl := range slots {
+		for ti, sl := range slots {
 			res.Proofs = append(res.Proofs, sl.proofs...)
 			res.Reads = append(res.Reads, sl.reads...)
 			res.Blocks = append(res.Blocks, sl.blocks...)
-			res.Errors = append(res.Errors, sl.errs...)
+			for _, e := range sl.errs {
+				if sc.EntropyFailures() > 0 && ti == sc.FailTask && strings.Contains(e, kernel.ErrEntropy.Error()) {
+					// the entropy source failed under this task: an error from the operation is the right answer
+					r.Probe("operation-failed-on-entropy-error")
+					continue
+				}
+				res.Errors = append(res.Errors, e)
+			}
+		}
+		if n := sc.EntropyFailures(); n > 0 {
+			r.Stats().Faults["entropy-read-error"] += n
 		}
 		res.Switches += len(sc.Switches())
 		r.Stats().Faults["preemption(context switch at a yield point)"] += len(sc.Switches())
